@@ -116,8 +116,10 @@ def group_traces(info, tier):
 
 QUICK_GROUPS = ["SO2", "SE2", "R2", "R3", "SO3Quat", "SO3Mrp", "SO3Dcm", "SO3Euler", "SE3Quat", "SE3Mrp", "SE23Quat", "SE23Mrp"]
 THOROUGH_EXTRA = ["SE3Dcm", "SE3Euler", "SE23Dcm", "SE23Euler"]
-PRODUCTS_QUICK = [["SO3Mrp", "R3"], ["SO2", "R2"]]
-PRODUCTS_THOROUGH = [["SE3Quat", "SO3Mrp", "R3"], ["SO3Dcm", "R3"], ["SE2", "SO3Quat"]]
+# products whose non-last factors have group parameter count != algebra dimension (quaternion 4/3, DCM 9/3) exercise the
+# parameter slicing with pairwise-distinct sizes
+PRODUCTS_QUICK = [["SO3Mrp", "R3"], ["SO2", "R2"], ["SO3Quat", "R3"], ["SE3Quat", "SO3Mrp", "R2"], ["SO3Dcm", "SE2"]]
+PRODUCTS_THOROUGH = [["SE3Quat", "SO3Mrp", "R3"], ["SO3Dcm", "R3"], ["SE2", "SO3Quat"], ["R3", "SE23Quat", "SO3Quat", "SO2"]]
 
 
 def traces(tier="quick"):
